@@ -134,7 +134,7 @@ namespace sqf
             /// d_object this object is part of (eg. Unit X sits in Vehicle Y, Y will be parent of X)
             /// </summary>
             /// <returns></returns>
-            std::shared_ptr<d_object> parent_object() const { return m_parent_object; }
+            std::shared_ptr<d_object> parent_object() const;
 
             std::shared_ptr<d_object> driver() const;
             void driver(std::shared_ptr<d_object> val);
